@@ -947,6 +947,7 @@ func (f *Frame) loopEnv(h *ssa.BasicBlock, st *State, phiOverride map[*ssa.Phi]V
 			}
 		}
 	}
+	env.loopEntry = f.loopEntry[h]
 	// identifiers of the invariants that no longer name a local (renamed variable): bound once per loop
 	if spec := f.loopSpec(h); spec != nil && f.spec != nil {
 		if f.loopAlias == nil {
@@ -1007,6 +1008,10 @@ func (f *Frame) loopHeader(h *ssa.BasicBlock, st *State, reach string) (*State, 
 		g.fail("%s: loop %d (block %d) has no invariant", relName(f.fn), f.loopOrd[h], h.Index)
 	}
 	reach = g.defBool(fmt.Sprintf("%sreach_pre_%d", f.prefix, h.Index), reach)
+	if f.loopEntry == nil {
+		f.loopEntry = map[*ssa.BasicBlock]*State{}
+	}
+	f.loopEntry[h] = st.clone()
 	// 1. entry values of the phis
 	f.phis(h, nil)
 	entryPhi := map[*ssa.Phi]Val{}
